@@ -190,6 +190,10 @@ func main() {
 	}
 	replace := map[string]string{}
 	total := 0
+	// further packages for a particular check (comma separated)
+	if x := os.Getenv("VERIF_INSTR_EXTRA"); x != "" {
+		dirs = append(dirs, strings.Split(x, ",")...)
+	}
 	for _, d := range dirs {
 		files, _ := filepath.Glob(filepath.Join(*repo, d, "*.go"))
 		for _, f := range files {
